@@ -130,7 +130,8 @@ class BaseCheckInfo:  # pylint:disable=too-few-public-methods
 
     def to_check(self, model_cls: Type) -> Check:
         """Create a Check from metadata."""
-        name = self.check_kwargs.pop("name", None)
+        check_kwargs = dict(self.check_kwargs)
+        name = check_kwargs.pop("name", None)
         if not name:
             name = getattr(
                 self.check_fn, "__name__", self.check_fn.__class__.__name__
@@ -139,7 +140,7 @@ class BaseCheckInfo:  # pylint:disable=too-few-public-methods
         def _adapter(arg: Any, **kwargs) -> Union[bool, Iterable[bool]]:
             return self.check_fn(model_cls, arg, **kwargs)
 
-        return Check(_adapter, name=name, **self.check_kwargs)
+        return Check(_adapter, name=name, **check_kwargs)
 
 
 class BaseParserInfo:  # pylint:disable=too-few-public-methods
